@@ -2,9 +2,10 @@
    c ranges over every configuration (declared and dynamically scanned modules, kinds, attachments, flags) in every
    declaration order, sched over every interleaving of startModule calls, poll thread steps and the time-out,
    limit over every depth bound of the interpreter, fuel over every step budget of the model. *)
-From Coq Require Import List Arith Bool Lia.
+From Coq Require Import List Arith Bool Lia Permutation.
 Import ListNotations.
-Require Import FV.Gen.C15 FV.C15.Model FV.C15.Lemmas FV.C15.LemmasInit FV.C15.Refuted.
+Require Import FV.Gen.C15 FV.C15.Model FV.C15.Lemmas FV.C15.LemmasInit FV.C15.LemmasSort FV.C15.LemmasWf
+  FV.C15.LemmasGlobal FV.C15.LemmasTerm FV.C15.LemmasOnce FV.C15.Refuted.
 
 (* obligations on the facts regenerated from /repo (Gen/C15.v) *)
 Theorem C15_source_facts :
@@ -108,6 +109,109 @@ Theorem C15_shutdown_stops_pollers_first :
     (s_pc s <> MRun -> shutdown s order = s_node s).
 Proof. intros; split; [apply shutdown_trace|apply shutdown_not_running]. Qed.
 
+
+(* ---- shutdown order (SecNode._getSortedModules), every configuration, every schedule, every pop order of the set:
+   the order is a permutation of the modules of the node - with C15_shutdown_stops_pollers_first: every module is
+   shut down exactly once.  This holds for EVERY graph of cached attachments (also for a cyclic one, where the
+   function gives up and appends the visited and the unmarked names). *)
+Theorem C15_shutdown_every_module_once :
+  forall limit fuel c sched order,
+    let st := s_node (started limit fuel c sched) in
+    Permutation (sorted_modules st order) (map fst (modules st)) /\ NoDup (sorted_modules st order).
+Proof. intros; apply shutdown_order_permutation. Qed.
+
+(* acyclic graph of cached attachments (rank decreases along every attachment that was resolved), pop order that
+   enumerates the modules: every module stands BEFORE every module it is attached to - users are shut down first *)
+Theorem C15_shutdown_users_before_attached :
+  forall limit fuel c sched order (rank : name -> nat),
+    let st := s_node (started limit fuel c sched) in
+    (forall x, In x (map fst (modules st)) -> In x order) ->
+    (forall u i b, In (i, b) (attached_of st u) -> rank b < rank u) ->
+    forall u i b, In (i, b) (attached_of st u) ->
+      exists l1 l2, sorted_modules st order = l1 ++ u :: l2 /\ In b l2.
+Proof. intros limit fuel c sched order rank st COV R u i b I. eapply shutdown_order_users_first; eauto. Qed.
+
+(* ... and the rank exists whenever the node reports ready (small names, see cfg_small): no hypothesis on the graph *)
+Theorem C15_shutdown_users_before_attached_when_ready :
+  forall limit fuel c sched order,
+    cfg_small c -> enough_fuel limit c <= fuel -> s_pc (started limit fuel c sched) = MRun ->
+    let st := s_node (started limit fuel c sched) in
+    (forall x, In x (map fst (modules st)) -> In x order) ->
+    forall u i b, In (i, b) (attached_of st u) ->
+      exists l1 l2, sorted_modules st order = l1 ++ u :: l2 /\ In b l2.
+Proof. intros; eapply ready_shutdown_users_first; eauto using initialised_terminates. Qed.
+
+(* ---- global: a cycle that get_module can follow (attachments read in earlyInit / initModule, io) among the
+   modules of the node ALWAYS ends with a recorded error (so, by C15_errors_never_ready, the node never reports
+   ready) - for every configuration with small names, every declaration order, every depth limit *)
+Theorem C15_cyclic_attachment_is_an_error :
+  forall limit fuel c u,
+    cfg_small c -> enough_fuel limit c <= fuel ->
+    reaches (initialised limit fuel c) u u -> errors (initialised limit fuel c) <> [].
+Proof. intros; eapply cycle_is_error; eauto using initialised_terminates. Qed.
+
+(* the same, positively: no recorded error => the graph followed by get_module has a rank function *)
+Theorem C15_no_error_acyclic :
+  forall limit fuel c,
+    cfg_small c -> errors (initialised limit fuel c) = [] -> enough_fuel limit c <= fuel ->
+    let st := initialised limit fuel c in
+    exists rank : name -> nat, forall u t, has_key u (modules st) = true ->
+      In t (targets_of (ops_m (modules st) u)) -> rank t < rank u.
+Proof. intros; apply no_error_rank; auto using initialised_terminates. Qed.
+
+(* ---- liveness of the initialisation: when the node reports ready, EVERY module of the node (declared, created
+   through an attachment, automatically created communicator, dynamically scanned) is marked as initialised *)
+Theorem C15_ready_all_initialised :
+  forall limit fuel c sched,
+    cfg_small c -> enough_fuel limit c <= fuel -> s_pc (started limit fuel c sched) = MRun ->
+    forall m, has_key m (modules (s_node (started limit fuel c sched))) = true ->
+      isinit (s_node (started limit fuel c sched)) m = true.
+Proof. intros; eapply ready_all_initialised; eauto using initialised_terminates. Qed.
+
+(* ---- get_module never loops: for EVERY configuration (cyclic ones included, no hypothesis on names), every
+   declaration order and every depth limit, the step budget enough_fuel limit c (linear in the depth limit times the
+   number of configured modules, see LemmasTerm.v) is never exhausted - every get_module call of create_modules,
+   get_descriptive_data and _processCfg returns, at the latest through the depth limit (recorded as an error).
+   With it the model-side hypothesis [stuck = false] disappears from the theorems above. *)
+Theorem C15_get_module_never_loops :
+  forall limit fuel c, enough_fuel limit c <= fuel -> stuck (initialised limit fuel c) = false.
+Proof. intros; apply initialised_terminates; assumption. Qed.
+
+(* one step of the machine strictly decreases the measure behind it *)
+Theorem C15_step_measure_decreases :
+  forall C limit st, DB C st -> stack st <> [] -> length (stack st) <= S limit ->
+    measure C (S limit) (step limit st) < measure C (S limit) st.
+Proof. intros C limit st D N L. apply decr_measure. apply (step_decr C limit st D N L). Qed.
+
+(* ---- the first clause of the property at the ready point, on EVERY graph (Pinata initialisations during
+   create_modules, lazily created modules and automatically created communicators included): every module of the node
+   got exactly one earlyInit (ce), exactly one initModule (ci) and exactly one startModule, earlyInit before
+   initModule (early_first), every startModule after the whole initialisation (the trace is the initialisation trace
+   with later events in front, and the initialisation trace contains no startModule), in the order of secnode.modules;
+   what is not a module of the node got nothing *)
+Theorem C15_ready_lifecycle_exactly_once :
+  forall limit fuel c sched,
+    cfg_small c -> enough_fuel limit c <= fuel -> s_pc (started limit fuel c sched) = MRun ->
+    let st := s_node (started limit fuel c sched) in
+    (forall m, has_key m (modules st) = true -> ce m (trace st) = 1 /\ ci m (trace st) = 1) /\
+    (forall m, has_key m (modules st) = false -> ce m (trace st) = 0 /\ ci m (trace st) = 0) /\
+    early_first (trace st) /\
+    starts (trace st) = rev (map EStart (map fst (modules st))) /\
+    (exists evs, trace st = evs ++ trace (initialised limit fuel c) /\ starts (trace (initialised limit fuel c)) = []).
+Proof. intros; apply ready_lifecycle_once; auto using initialised_terminates. Qed.
+
+(* the counting invariant behind it, one step: earlyInit events of a module = its frames past earlyInit + 1 if marked *)
+Theorem C15_counts_while_no_error :
+  forall limit st, GInv st -> CInv st -> errors (step limit st) = [] -> CInv (step limit st).
+Proof. intros; apply step_CI; assumption. Qed.
+
+(* the invariant behind the three theorems above, as long as no error is recorded: every active get_module call
+   belongs to a module that is not yet marked (no re-entry, also on cyclic graphs before the error), the targets of
+   the accesses it has already executed are marked *)
+Theorem C15_no_reentry_while_no_error :
+  forall limit st, GInv st -> errors (step limit st) = [] -> GInv (step limit st).
+Proof. intros; apply step_GI; assumption. Qed.
+
 (* non-vacuity: user declared before the module it attaches; shared poll-free run to completion *)
 Definition demo_cfg : cfg :=
   {| c_static := [(0, plain true [to 1] [0; 1]); (1, plain true [] [])]; c_dyn := [] |}.
@@ -134,6 +238,29 @@ Proof.
     repeat (apply Forall_cons; [first [exact I | intros t E; inversion E; subst; vm_compute; lia]|]); apply Forall_nil.
 Qed.
 
+(* non-vacuity of the global theorems: demo_cfg has small names and reports ready (so its hypotheses hold); the
+   two-module cycle 0 <-> 1 is reachable by get_module and is reported *)
+Example C15_small_demo : cfg_small demo_cfg /\ enough_fuel 40 demo_cfg <= (7 * 1000) /\
+  errors (initialised 40 (7 * 1000) demo_cfg) = [] /\
+  sorted_modules (initialised 40 (7 * 1000) demo_cfg) [1; 0] = [0; 1].
+Proof.
+  split; [|split; [vm_compute; lia|vm_compute; auto]].
+  split; intros b d I; simpl in I; repeat (destruct I as [I|I]; [inversion I; subst; split; [lia|vm_compute; lia]|]);
+    contradiction.
+Qed.
+
+Definition cyc_cfg : cfg :=
+  {| c_static := [(0, plain true [to 1] []); (1, plain true [to 0] [])]; c_dyn := [] |}.
+Example C15_cycle_demo : cfg_small cyc_cfg /\ enough_fuel 40 cyc_cfg <= (7 * 1000) /\
+  reaches (initialised 40 (7 * 1000) cyc_cfg) 0 0 /\ errors (initialised 40 (7 * 1000) cyc_cfg) <> [].
+Proof.
+  split; [|split; [vm_compute; lia|split]].
+  - split; intros b d I; simpl in I; repeat (destruct I as [I|I]; [inversion I; subst; split; [lia|vm_compute; lia]|]);
+      contradiction.
+  - apply (reach_more _ 0 1 0); [|apply reach_one]; split; vm_compute; auto.
+  - vm_compute. discriminate.
+Qed.
+
 (* the former finding: module 0 has export = False, nobody attaches it, it has a configured start value; it is now
    initialised, its value is written in the first round of its poll thread, before the node reports ready *)
 Definition cfg_unexported : cfg :=
@@ -155,4 +282,15 @@ Print Assumptions C15_errors_never_ready.
 Print Assumptions C15_ready_after_first_round.
 Print Assumptions C15_writes_before_first_poll.
 Print Assumptions C15_shutdown_stops_pollers_first.
+Print Assumptions C15_shutdown_every_module_once.
+Print Assumptions C15_shutdown_users_before_attached.
+Print Assumptions C15_shutdown_users_before_attached_when_ready.
+Print Assumptions C15_cyclic_attachment_is_an_error.
+Print Assumptions C15_no_error_acyclic.
+Print Assumptions C15_ready_all_initialised.
+Print Assumptions C15_no_reentry_while_no_error.
+Print Assumptions C15_ready_lifecycle_exactly_once.
+Print Assumptions C15_counts_while_no_error.
+Print Assumptions C15_get_module_never_loops.
+Print Assumptions C15_step_measure_decreases.
 Print Assumptions C15_refuted_pinata_order_dependent.
